@@ -1104,6 +1104,123 @@ def _b(x):
 
 
 # ------------------------------------------------------------------------------------------------ EdgeLock v2
+def probe_cert(sb):
+    """AhabCertificate by value: the three field tables (signed data / export / parse) as [(code, role)]"""
+    denv = ModuleEnv(parse("spsdk/image/ahab/ahab_data.py"))
+    consts = {}
+    for k in ("LITTLE_ENDIAN", "UINT8", "UINT16", "UINT32", "UINT64", "RESERVED"):
+        consts[k] = denv.value(k)
+
+    class _Tags:
+        def __getattr__(self, a):
+            return types.SimpleNamespace(tag=0xA7, label=a)
+
+    class Blob:
+        """opaque self-delimiting sub-container: 2-byte length + body"""
+        def __init__(self, raw=b"", **kw):
+            self.raw = bytes(raw)
+            self.signature_data = kw.get("signature_data", b"")
+            self.srk_data = None
+        def export(self):
+            return self.raw
+        def __len__(self):
+            return len(self.raw)
+        @classmethod
+        def parse(cls, data, *a, **k):
+            n = struct.unpack_from("<H", data, 0)[0]
+            return cls(data[:n])
+        def update_fields(self):
+            pass
+        def sign(self, data):
+            pass
+        def __eq__(self, o):
+            return isinstance(o, Blob) and o.raw == self.raw
+        def __bool__(self):
+            return True
+
+    def blob(n, seed):
+        return Blob(struct.pack("<H", n + 2) + distinct(n, seed))
+
+    def extend_block(data, length, padding=0):
+        if len(data) > length:
+            raise SPSDKError("extend_block: data longer than the block")
+        return bytes(data) + bytes([padding]) * (length - len(data))
+
+    class BaseClass:
+        pass
+
+    extra = dict(consts, BaseClass=BaseClass, AHABTags=_Tags(), extend_block=extend_block, SPSDKParsingError=SPSDKError, SPSDKLengthError=SPSDKError,
+                 ContainerSignature=Blob, SRKData=Blob, SRKRecordV2=Blob, Optional=Dummy("Optional"), Union=Dummy("Union"), FlagsSrkSet=Dummy("FlagsSrkSet"), Any=Dummy("Any"))
+    ai = sb.load("spsdk/image/ahab/ahab_abstract_interfaces.py", extra)
+    extra2 = dict(extra, HeaderContainer=ai["HeaderContainer"], HeaderContainerData=ai["HeaderContainerData"])
+    ns = sb.load(CERT, extra2)
+    C = ns["AhabCertificate"]
+    probes = []
+    for k in range(2):
+        perm, fuse = 0x2B + 0x11 * k, 0x5C + 7 * k
+        pd, uu = distinct(C.PERMISSION_DATA_SIZE, 90 + k), distinct(C.UUID_SIZE, 92 + k)
+        rec, dat, sig = blob(30 + 8 * k, 94 + k), blob(70 + 12 * k, 96 + k), blob(64 + 32 * k, 98 + k)
+        rec.srk_data = dat
+        c = C(permissions=perm, permissions_data=pd, fuse_version=fuse, uuid=uu, public_key_0=rec)
+        c.signature_0 = sig
+        fixed = C.fixed_length()
+        c.signature_offset = fixed + len(rec) + len(dat)
+        c.length = c.signature_offset + len(sig)
+        want = {"version": c.version, "length": c.length, "tag": c.tag, "signature_offset": c.signature_offset, "~permissions": ~perm & 0xFF,
+                "permissions": perm, "permission_data": pd, "fuse_version": fuse, "uuid": uu, "key0.record": rec.raw, "key0.data": dat.raw,
+                "signature0": sig.raw}
+        res = {}
+        for meth in ("get_signature_data", "export"):
+            sb.rec.clear()
+            out = getattr(c, meth)()
+            parts = decompose(out, list(sb.rec.packs), [rec.raw, dat.raw, sig.raw], None, None)
+            if parts is None:
+                raise ValueError("certificate bytes cannot be attributed")
+            row = []
+            for kind, code, n, v in parts:
+                names = [nm for nm, w in want.items() if (bytes(w) == bytes(v) if isinstance(v, (bytes, bytearray)) else (not isinstance(w, bytes) and w == v))]
+                if not names and v == consts["RESERVED"]:
+                    names = ["reserved"]
+                fc = "raw" if kind == "raw" else (f"{n}s" if code == "s" else code)
+                row.append((fc, names))
+            res[meth] = row
+        data = c.export()
+        sb.rec.clear()
+        p = C.parse(data + distinct(5, 7))
+        got = {"length": p.length, "signature_offset": p.signature_offset, "permissions": p._permissions, "permission_data": p.permission_data,
+               "fuse_version": p.fuse_version, "uuid": p._uuid}
+        # the unpack of the fixed part: the recorded call whose buffer is the first `fixed` bytes
+        row = None
+        for fmt, buf, off, vals in sb.rec.unpacks:
+            ff = fmt_fields(fmt)
+            if ff and buf == data[:fixed] and off == 0 and len(ff) == len(vals) and len(ff) > 3:
+                row = []
+                for (code, n), v in zip(ff, vals):
+                    fc = f"{n}s" if code == "s" else code
+                    names = [nm for nm in got if nm in want and ((bytes(v) == bytes(want[nm]) and bytes(got[nm]) == bytes(v)) if isinstance(v, (bytes, bytearray))
+                             else (not isinstance(want[nm], bytes) and v == want[nm] and got[nm] == v))]
+                    row.append((fc, names))
+        if row is None:
+            raise ValueError("no unpack of the fixed part seen")
+        tail = []
+        if p.public_key_0 == rec: tail.append(("raw", ["key0.record"]))
+        if p.public_key_0.srk_data == dat: tail.append(("raw", ["key0.data"]))
+        if p.signature_0 == sig: tail.append(("raw", ["signature0"]))
+        res["parse"] = row + tail
+        probes.append(res)
+    out = {}
+    for meth in ("get_signature_data", "export", "parse"):
+        rows = [p[meth] for p in probes]
+        if any(len(r) != len(rows[0]) or [x[0] for x in r] != [x[0] for x in rows[0]] for r in rows):
+            raise ValueError("layout differs between probes")
+        fin = []
+        for i, (fc, _) in enumerate(rows[0]):
+            common = set.intersection(*[set(r[i][1]) for r in rows])
+            fin.append((fc, common.pop() if len(common) == 1 else ("_" if meth == "parse" and not common else "?")))
+        out[meth] = fin
+    return out
+
+
 def v2_section(sb, ns, out, meta):
     """What the model of the v2 credential depends on (the byte widths come from C06's Generated/AhabConsts.certificateLayout)."""
     try:
@@ -1173,6 +1290,23 @@ def v2_section(sb, ns, out, meta):
         inv = []
     out.append(f"def certParseTargets : List String := {_strs(targets)}  -- AhabCertificate.parse: targets of unpack(image_format, ...) by the attribute they feed")
     out.append(f"def certInvertedCheck : List String := {_strs(inv)}")
+    # the same three sites BY VALUE (sandboxed AhabCertificate run on distinctive values): (struct code, role) per field, in byte order
+    unk = [("?", "?")]
+    cv = attempt(meta, "AHAB certificate by value", lambda: probe_cert(sb), {"get_signature_data": unk, "export": unk, "parse": unk})
+
+    roles = {"version": ".version", "length": ".length", "tag": ".tag", "signature_offset": ".sigOffset", "~permissions": ".invPerm", "permissions": ".perm",
+             "permission_data": ".permData", "fuse_version": ".fuse", "reserved": ".reserved", "uuid": ".uuid", "key0.record": ".keyRecord",
+             "key0.data": ".keyData", "signature0": ".sig0", "_": ".dropped"}
+
+    def _cw(c):
+        m = re.fullmatch(r"(\d+)s", c)
+        return f"(.bytes {m.group(1)})" if m else {"B": ".u8", "H": ".u16", "raw": ".raw"}.get(c, ".unknown")
+
+    def _sf(rows):
+        return "[" + ", ".join(f"({_cw(a)}, {roles.get(b, '.unknown')})" for a, b in rows) + "]"
+    out.append(f"def certSignFields : List (CertW × CertRole) := {_sf(cv['get_signature_data'])}  -- AhabCertificate.get_signature_data(), probed: what is written where")
+    out.append(f"def certExportFields : List (CertW × CertRole) := {_sf(cv['export'])}  -- AhabCertificate.export(), probed")
+    out.append(f"def certParseFields : List (CertW × CertRole) := {_sf(cv['parse'])}  -- AhabCertificate.parse(export()), probed: the attribute each position ends up in (_ = dropped / only checked)")
     cenv = ModuleEnv(ctree) if ctree else None
 
     def _class_const(_c, k):
